@@ -342,6 +342,12 @@ class Interp:
             return {("addr", smash(a[1]))}
         if isinstance(b, tuple) and b[0] == "addr" and op == "+":
             return {("addr", smash(b[1]))}
+        if isinstance(a, tuple) and a[0] == "mem" and op == "+" and "many" not in a:
+            # pointer into a heap block: element k (exact when loops are unrolled, summarised otherwise)
+            if not self.widen and is_int(b) and 0 <= b <= 64:
+                return {("addr", ("i", ("heap", a), b))}
+            if is_int(b) or b in ("POS",):
+                return {("addr", ("i", ("heap", a), "*"))}
         if a in ("PTR",) or (isinstance(a, tuple) and a[0] in ("mem", "str")):
             if op in ("+", "-") and not (isinstance(b, tuple) and b[0] in ("mem", "addr") or b == "PTR"):
                 return {a}
@@ -542,7 +548,11 @@ class Interp:
                 targets = self.agg_cells(base, st, fn)
             return [("f", t, n["member"]) for t in targets]
         if k == "UnaryOperator" and n["op"] == "*":
-            return self.ptr_targets(self.rval(n["c"][0], st, fn), n["c"][0])
+            ts = self.ptr_targets(self.rval(n["c"][0], st, fn), n["c"][0])
+            if not is_agg_type(n):
+                # *p on a heap block of scalars / pointers is element 0 of that block
+                ts = [("i", t, 0) if t[0] == "heap" else t for t in ts]
+            return ts
         if k == "ArraySubscriptExpr":
             base, idx = n["c"][0], n["c"][1]
             iv = self.rval(idx, st, fn)
